@@ -33,7 +33,7 @@ theorem rsl_esc (q : Cur) (e o : Nat) (tl : Bytes) (c : Cur) (acc : Bytes) (buf 
          (e = 110 ∧ o = 10) ∨ (e = 114 ∧ o = 13) ∨ (e = 116 ∧ o = 9)) :
     readStringLoop q (92 :: e :: tl) c acc buf = readStringLoop q tl (c.adv 2 2) (o :: acc) true := by
   conv => lhs; rw [readStringLoop.eq_def]
-  rcases h with ⟨rfl, rfl⟩ | ⟨rfl, rfl⟩ | ⟨rfl, rfl⟩ | ⟨rfl, rfl⟩ | ⟨rfl, rfl⟩ | ⟨rfl, rfl⟩ | ⟨rfl, rfl⟩ <;> simp
+  rcases h with ⟨rfl, rfl⟩ | ⟨rfl, rfl⟩ | ⟨rfl, rfl⟩ | ⟨rfl, rfl⟩ | ⟨rfl, rfl⟩ | ⟨rfl, rfl⟩ | ⟨rfl, rfl⟩ <;> simp [escapeOut]
 
 /-- a `\uXXXX` escape followed by at least one more byte -/
 theorem rsl_u (q : Cur) (h1 h2 h3 h4 x r : Nat) (tl : Bytes) (c : Cur) (acc : Bytes) (buf : Bool)
